@@ -845,3 +845,119 @@ func splitsHold(con *Contract, envVars map[string]Value) bool {
 	}
 	return true
 }
+
+// witnessFindings replays the witness of every listed witness finding of the
+// property on the real code; a finding whose witness still violates its
+// clause is reported (KNOWN-FINDING), one that no longer does is silent.
+func (rep *Report) witnessFindings(kf *KnownFindings) []string {
+	var seen []string
+	for _, f := range kf.List {
+		if f.Prop != rep.Prop || f.Witness == "" {
+			continue
+		}
+		op := strings.Index(f.Witness, "(")
+		if op < 0 || !strings.HasSuffix(f.Witness, ")") {
+			continue
+		}
+		key := f.Witness[:op]
+		fn := rep.VC.funcsByKey[key]
+		if fn == nil {
+			continue
+		}
+		rawArgs := splitTopLevel(f.Witness[op+1 : len(f.Witness)-1])
+		if len(rawArgs) != len(fn.Params) {
+			continue
+		}
+		var exprs []string
+		env := map[string]Value{}
+		ok := true
+		for i, p := range fn.Params {
+			a := strings.TrimSpace(rawArgs[i])
+			switch {
+			case isFloat(p.Type()):
+				var fl float64
+				if _, err := fmt.Sscanf(a, "%g", &fl); err != nil {
+					ok = false
+				}
+				r := new(big.Rat)
+				r.SetFloat64(fl)
+				env[p.Name()] = r
+				exprs = append(exprs, fmt.Sprintf("math.Float64frombits(0x%x)", math.Float64bits(fl)))
+			case isInteger(p.Type()):
+				n, good := new(big.Int).SetString(a, 10)
+				if !good {
+					ok = false
+				}
+				env[p.Name()] = n
+				exprs = append(exprs, fmt.Sprintf("%s(%s)", types.TypeString(p.Type(), qualifierShort), a))
+			default:
+				if b, isB := p.Type().Underlying().(*types.Basic); isB && b.Info()&types.IsString != 0 {
+					sv := strings.Trim(a, "\"")
+					env[p.Name()] = sv
+					exprs = append(exprs, fmt.Sprintf("%q", sv))
+				} else {
+					ok = false
+				}
+			}
+		}
+		if !ok {
+			continue
+		}
+		real := rep.VC.runReal(fn, exprs)
+		if real.Err != "" {
+			continue
+		}
+		if real.Panicked {
+			seen = append(seen, f.ID)
+			fmt.Printf("KNOWN-FINDING: property=%s %s %s (witness %s panics)\n", rep.Prop, f.ID, f.Desc, f.Witness)
+			continue
+		}
+		for i, r := range real.Results {
+			if r != nil {
+				env[fmt.Sprintf("r%d", i)] = r
+			}
+		}
+		e, err := ParseExpr(f.Expect)
+		if err != nil {
+			continue
+		}
+		val, err := Eval(e, &EvalEnv{Vars: env, Defs: rep.VC.cs.Defs})
+		if err != nil {
+			continue
+		}
+		if b, isB := val.(bool); isB && !b {
+			seen = append(seen, f.ID)
+			var shownRes []string
+			for i, r := range real.Results {
+				shownRes = append(shownRes, fmt.Sprintf("r%d=%v", i, showValue(r)))
+			}
+			fmt.Printf("KNOWN-FINDING: property=%s %s %s (witness %s returns %s)\n", rep.Prop, f.ID, f.Desc, f.Witness, strings.Join(shownRes, " "))
+		}
+	}
+	return seen
+}
+
+func splitTopLevel(s string) []string {
+	var out []string
+	depth := 0
+	start := 0
+	inStr := false
+	for i, c := range s {
+		switch {
+		case c == '"':
+			inStr = !inStr
+		case inStr:
+		case c == '(':
+			depth++
+		case c == ')':
+			depth--
+		case c == ',' && depth == 0:
+			out = append(out, s[start:i])
+			start = i + 1
+		}
+	}
+	if strings.TrimSpace(s[start:]) != "" {
+		out = append(out, s[start:])
+	}
+	return out
+}
